@@ -1,8 +1,18 @@
 package main
 
 import (
+	"bytes"
+	"context"
+	"encoding/json"
 	"fmt"
+	"os"
+	"os/exec"
+	"path/filepath"
+	"strconv"
 	"strings"
+	"time"
+
+	"golang.org/x/tools/go/ssa"
 )
 
 // ---------------------------------------------------------------------------
@@ -152,11 +162,356 @@ func modelSummary(m map[string]*sexp) map[string]string {
 	return out
 }
 
-func runAdapter(x *Exec, prop string, ob *Obligation, in *Instance, model map[string]*sexp) (bool, string, string) {
-	return false, "no replay adapter for " + in.Check.Fn, ""
+// ---------------------------------------------------------------------------
+// Replay adapters: /verif/replay_adapters/*.go.tmpl
+//
+//   //replay:func  <display name of the function under contract>
+//   //replay:pkg   <package dir relative to /repo>
+//   //replay:value <name> = <contract expression over the function's parameters (entry state)>
+//   //replay:bytes <name> = <[]byte-typed contract expression>
+//
+// The rest of the file is an in-package Go test (TestVerifReplay) that reads the
+// model values from the JSON file named by $VERIF_REPLAY_MODEL, builds concrete
+// inputs, runs the REAL function and fails iff the property's oracle is violated.
+
+type adapter struct {
+	path   string
+	fn     string
+	pkg    string
+	values []adapterValue
+	source string
+}
+
+type adapterValue struct {
+	name  string
+	expr  string
+	bytes bool
+}
+
+func loadAdapters() []*adapter {
+	files, _ := filepath.Glob(filepath.Join(verifDir, "replay_adapters", "*.go.tmpl"))
+	var out []*adapter
+	for _, f := range files {
+		data, err := os.ReadFile(f)
+		if err != nil {
+			continue
+		}
+		a := &adapter{path: f, source: string(data)}
+		for _, line := range strings.Split(string(data), "\n") {
+			l := strings.TrimSpace(line)
+			switch {
+			case strings.HasPrefix(l, "//replay:func "):
+				a.fn = strings.TrimSpace(l[len("//replay:func "):])
+			case strings.HasPrefix(l, "//replay:pkg "):
+				a.pkg = strings.TrimSpace(l[len("//replay:pkg "):])
+			case strings.HasPrefix(l, "//replay:value "), strings.HasPrefix(l, "//replay:bytes "):
+				rest := strings.TrimSpace(l[len("//replay:value "):])
+				i := strings.IndexByte(rest, '=')
+				if i > 0 {
+					a.values = append(a.values, adapterValue{name: strings.TrimSpace(rest[:i]), expr: strings.TrimSpace(rest[i+1:]), bytes: strings.HasPrefix(l, "//replay:bytes ")})
+				}
+			}
+		}
+		if a.fn != "" && a.pkg != "" {
+			out = append(out, a)
+		}
+	}
+	return out
+}
+
+type fnInfo struct {
+	fn       *ssa.Function
+	pre      *State
+	env      map[string]SV
+	contract *Contract
+}
+
+func smtValueToGo(n *sexp) interface{} {
+	if n == nil {
+		return nil
+	}
+	if !n.isL {
+		a := n.atom
+		switch {
+		case a == "true":
+			return true
+		case a == "false":
+			return false
+		case strings.HasPrefix(a, "\""):
+			return smtUnescape(a)
+		}
+		return a
+	}
+	if len(n.list) == 2 && !n.list[0].isL && n.list[0].atom == "-" {
+		if v, ok := smtValueToGo(n.list[1]).(string); ok {
+			return "-" + v
+		}
+	}
+	return n.String()
+}
+
+func smtUnescape(lit string) string {
+	s := lit[1 : len(lit)-1]
+	s = strings.ReplaceAll(s, `""`, `"`)
+	var b []byte
+	for i := 0; i < len(s); {
+		if strings.HasPrefix(s[i:], `\u{`) {
+			j := strings.IndexByte(s[i:], '}')
+			if j > 0 {
+				v, err := strconv.ParseUint(s[i+3:i+j], 16, 32)
+				if err == nil && v < 256 {
+					b = append(b, byte(v))
+					i += j + 1
+					continue
+				}
+			}
+		}
+		b = append(b, s[i])
+		i++
+	}
+	// the test side receives bytes as a JSON array to stay 8-bit clean
+	return string(b)
+}
+
+func queryValues(c *Check, terms []T) (map[string]*sexp, string) {
+	script := c.Script(20000, false)
+	script = strings.Replace(script, "(get-model)\n", "", 1)
+	var b strings.Builder
+	b.WriteString(script)
+	b.WriteString("(get-value (")
+	for _, t := range terms {
+		b.WriteString(t.S)
+		b.WriteByte(' ')
+	}
+	b.WriteString("))\n")
+	// declarations for symbols only used in the value terms
+	extra := map[string]bool{}
+	for _, t := range terms {
+		collectSymbols(t.S, extra)
+	}
+	pre := ""
+	have := map[string]bool{}
+	collectSymbols(script, have)
+	for s := range extra {
+		if si, ok := symbols[s]; ok && !have[s] && !strings.Contains(script, si.decl) {
+			pre += si.decl + "\n"
+		}
+	}
+	full := b.String()
+	if pre != "" {
+		// insert after the sort prelude: before the first (assert
+		if i := strings.Index(full, "(assert"); i >= 0 {
+			full = full[:i] + pre + full[i:]
+		}
+	}
+	ctx, cancel := context.WithTimeout(context.Background(), 30*time.Second)
+	defer cancel()
+	cmd := exec.CommandContext(ctx, "z3-new", "-in", "-smt2")
+	cmd.Stdin = strings.NewReader(full)
+	var out bytes.Buffer
+	cmd.Stdout = &out
+	cmd.Stderr = &out
+	_ = cmd.Run()
+	o := out.String()
+	res := map[string]*sexp{}
+	lines := strings.SplitN(strings.TrimSpace(o), "\n", 2)
+	if len(lines) < 2 || strings.TrimSpace(lines[0]) != "sat" {
+		return res, o
+	}
+	ps := parseSexps(lines[1])
+	if len(ps) == 0 || !ps[0].isL {
+		return res, o
+	}
+	for i, pair := range ps[0].list {
+		if pair.isL && len(pair.list) == 2 && i < len(terms) {
+			res[terms[i].S] = pair.list[1]
+		}
+	}
+	return res, o
+}
+
+func runAdapter(x *Exec, prop string, ob *Obligation, in *Instance, model map[string]*sexp) (bool, string, string, map[string]interface{}) {
+	fnName := funcDisplayNameFromString(in.Check.Fn)
+	var ad *adapter
+	for _, a := range loadAdapters() {
+		if a.fn == fnName {
+			ad = a
+		}
+	}
+	if ad == nil {
+		return false, "no replay adapter for " + fnName, "", nil
+	}
+	info := x.fnInfos[in.Check.Fn]
+	if info == nil {
+		return false, "no entry-state information for " + fnName, ad.path, nil
+	}
+	values := map[string]interface{}{}
+	var out strings.Builder
+	func() {
+		defer func() {
+			if r := recover(); r != nil {
+				fmt.Fprintf(&out, "adapter expression error: %v\n", r)
+			}
+		}()
+		ctx := x.ctxFor(info.contract, info.pre, info.pre, info.env, info.fn)
+		var terms []T
+		var names []string
+		type pending struct {
+			name string
+			arr  T
+			off  T
+			ln   T
+		}
+		var bytesReq []pending
+		for _, v := range ad.values {
+			e, err := parseExpr(v.expr)
+			if err != nil {
+				fmt.Fprintf(&out, "adapter value %s: %v\n", v.name, err)
+				continue
+			}
+			sv := ctx.eval(e)
+			t := ctx.value(sv)
+			if v.bytes {
+				if t.Sort != SSlice {
+					fmt.Fprintf(&out, "adapter bytes %s is not a slice\n", v.name)
+					continue
+				}
+				elT := sv.typ.Underlying().(interface{ Elem() interface{} })
+				_ = elT
+				bytesReq = append(bytesReq, pending{v.name, sliceArr(t), sliceOff(t), sliceLen(t)})
+				terms = append(terms, sliceLen(t))
+				names = append(names, v.name+".len")
+				continue
+			}
+			terms = append(terms, t)
+			names = append(names, v.name)
+		}
+		vals, raw := queryValues(in.Check, terms)
+		if len(vals) == 0 {
+			fmt.Fprintf(&out, "could not obtain values from the solver: %s\n", firstLines(raw, 5))
+			return
+		}
+		for i, t := range terms {
+			values[names[i]] = smtValueToGo(vals[t.S])
+		}
+		// byte contents (bounded)
+		for _, br := range bytesReq {
+			n := 0
+			if s, ok := values[br.name+".len"].(string); ok {
+				n, _ = strconv.Atoi(s)
+			}
+			if n > 4096 {
+				n = 4096
+				values[br.name+".truncated"] = true
+			}
+			var ts []T
+			h := info.pre.arrHeap(byteType())
+			for j := 0; j < n; j++ {
+				ts = append(ts, sel(sel(h, br.arr), app(SInt, "+", br.off, mkInt(int64(j)))))
+			}
+			bs := make([]int, n)
+			if n > 0 {
+				bv, _ := queryValues(in.Check, append(terms, ts...))
+				for j, t := range ts {
+					if s, ok := smtValueToGo(bv[t.S]).(string); ok {
+						bs[j], _ = strconv.Atoi(s)
+					}
+				}
+			}
+			values[br.name] = bs
+		}
+	}()
+	if len(values) == 0 {
+		return false, out.String(), ad.path, values
+	}
+	ok, testOut := runReplayTest(ad, values)
+	out.WriteString(testOut)
+	return ok, out.String(), ad.path, values
+}
+
+func firstLines(s string, n int) string {
+	l := strings.Split(s, "\n")
+	if len(l) > n {
+		l = l[:n]
+	}
+	return strings.Join(l, "\n")
+}
+
+func funcDisplayNameFromString(s string) string {
+	return strings.ReplaceAll(s, repoPrefix, "")
+}
+
+// runReplayTest injects the adapter as an in-package test (go test -overlay)
+// and runs it on the real code. reproduced = the test FAILED.
+func runReplayTest(ad *adapter, values map[string]interface{}) (bool, string) {
+	work := filepath.Join(verifDir, ".work", fmt.Sprintf("replay-%d", os.Getpid()))
+	os.MkdirAll(work, 0o755)
+	defer os.RemoveAll(work)
+	modelPath := filepath.Join(work, "model.json")
+	data, _ := json.MarshalIndent(values, "", " ")
+	os.WriteFile(modelPath, data, 0o644)
+	testPath := filepath.Join(work, "zz_verif_replay_test.go")
+	os.WriteFile(testPath, []byte(ad.source), 0o644)
+	ov := map[string]map[string]string{"Replace": {filepath.Join(repoDir, ad.pkg, "zz_verif_replay_test.go"): testPath}}
+	ovData, _ := json.Marshal(ov)
+	ovPath := filepath.Join(work, "overlay.json")
+	os.WriteFile(ovPath, ovData, 0o644)
+	ctx, cancel := context.WithTimeout(context.Background(), 180*time.Second)
+	defer cancel()
+	cmd := exec.CommandContext(ctx, "go", "test", "-overlay", ovPath, "-vet=off", "-count=1", "-timeout", "60s", "-run", "^TestVerifReplay$", "./"+ad.pkg)
+	cmd.Dir = repoDir
+	cmd.Env = append(os.Environ(), "GOFLAGS=-mod=mod", "GOPROXY=off", "GOSUMDB=off", "GOTOOLCHAIN=local", "VERIF_REPLAY_MODEL="+modelPath)
+	var outb bytes.Buffer
+	cmd.Stdout = &outb
+	cmd.Stderr = &outb
+	err := cmd.Run()
+	o := outb.String()
+	if len(o) > 6000 {
+		o = o[:6000] + "\n...[truncated]"
+	}
+	if err == nil {
+		return false, "replay test PASSED on the real code (input does not violate the oracle):\n" + o
+	}
+	if strings.Contains(o, "--- FAIL: TestVerifReplay") || strings.Contains(o, "panic:") {
+		return true, "replay test FAILED on the real code (violation reproduced):\n" + o
+	}
+	return false, "replay test could not be run: " + err.Error() + "\n" + o
 }
 
 func cmdReplay(prop, path string) int {
-	fmt.Println("replay of", path, "not implemented yet")
-	return 2
+	data, err := os.ReadFile(path)
+	if err != nil {
+		fmt.Println("cannot read replay file:", err)
+		return 2
+	}
+	var rec map[string]interface{}
+	if err := json.Unmarshal(data, &rec); err != nil {
+		fmt.Println("bad replay file:", err)
+		return 2
+	}
+	adPath, _ := rec["replay_adapter"].(string)
+	vals, _ := rec["model_values"].(map[string]interface{})
+	fmt.Printf("obligation: %v\nfunction: %v\nsolver: %v (%v)\n", rec["obligation"], rec["function"], rec["solver"], rec["status"])
+	if adPath == "" || vals == nil {
+		fmt.Println("no concrete input in this replay file (no-failing-input-found); solver output follows")
+		fmt.Println(rec["solver_output"])
+		return 1
+	}
+	var ad *adapter
+	for _, a := range loadAdapters() {
+		if a.path == adPath {
+			ad = a
+		}
+	}
+	if ad == nil {
+		fmt.Println("adapter not found:", adPath)
+		return 2
+	}
+	ok, out := runReplayTest(ad, vals)
+	fmt.Println(out)
+	if ok {
+		fmt.Printf("VIOLATION property=%s replay=%s\n", prop, path)
+		return 1
+	}
+	return 0
 }
